@@ -62,7 +62,7 @@ Definition mon_res (sent : list ev) (pstat : nat) (mf : mon * list N) (o : obs) 
     else if disc_matches (nth_error sent (m_idx m)) c then (set_told (inc_idx m), f)
          else (set_told m, f ++ [4%N])
   | (KRecv, ECancelled) => (m, f)
-  | (KRecv, EAssert) => if m_cc m then (m, f) else (m, f ++ [7%N])
+  | (KRecv, EAssert) => (m, f ++ [7%N])
   | (KRecv, EInvalidState) => (m, f ++ [7%N])
   | (KSend, VOk) => if m_prev m then (m, f ++ [3%N]) else (m, f)
   | (KSend, EDisc _) => if m_prev m then (set_told m, f) else (set_told m, f ++ [3%N])
